@@ -29,6 +29,8 @@ def check(prog, run):
     run.rule("R4", "video presentation times keep their place relative to audio: the video ctts holds pts - dts of every sample and is present whenever any offset is non-zero (C03.R5 instances)")
     run.rule("R3", "no drift between the tracks: audio and video timestamps go through the one stateless tick conversion of the call's own timestamp (C03.R1 instances), so no per-call rounding error accumulates on one track")
     c03.tick_rule(m.cx, run, "R3", exact=False)
+    run.rule("R5", "each track's timeline is the submitted one: per-sample durations are differences of the submitted timestamps (back-patched for every next sample; no duration taken from the payload or a nominal frame length) - C03.R2 instances")
+    c03.duration_rule(m, run, "R5")
     n = 0
     for lf in m.leaves:
         if not m.audio_present(lf):
